@@ -1,6 +1,7 @@
 package mc
 
 import (
+	"time"
 	"bufio"
 	"crypto/sha256"
 	"encoding/hex"
@@ -163,6 +164,7 @@ type World struct {
 	resName map[interface{}]string
 	Data    map[string]interface{} // scratch for scenarios/monitors
 	closed  bool
+	Free    bool // free-running (socket tier)
 
 	snapT     int
 	connSnap  []server.VerifConnSnap
@@ -190,13 +192,19 @@ var Tainted bool
 var current *World
 
 // NewWorld builds a fresh gateway for the scenario.
-func NewWorld(sc *Scenario) *World {
+func NewWorld(sc *Scenario) *World { return newWorld(sc, false) }
+
+func newWorld(sc *Scenario, free bool) *World {
 	if current != nil && !current.closed {
 		current.Close()
 	}
 	w := &World{Sc: sc, cids: map[string]string{}, resGen: map[string]int{}, resName: map[interface{}]string{}, Data: map[string]interface{}{}}
 	current = w
 	w.S = NewSched()
+	if free {
+		w.S.Detach()
+		w.Free = true
+	}
 	w.S.onFrame = w.onFrame
 	w.S.onHTTPWait = w.onHTTPWait
 	w.MQ = NewMQ(w.Canon, func() int { return w.time })
@@ -261,6 +269,70 @@ func (w *World) addConn(spec *ConnSpec) *Conn {
 	w.mu.Unlock()
 	w.Conns = append(w.Conns, c)
 	return c
+}
+
+// NewFreeWorld builds a gateway whose workers run freely (hooks only count):
+// the socket tier. Every request is answered at once, on its own goroutine,
+// by answer (nil = the truthful service answer). Stimuli must be strictly
+// sequential: call Settle after each.
+func NewFreeWorld(sc *Scenario, answer func(w *World, r *Req) Outcome) *World {
+	free := *sc
+	free.Conns = nil
+	w := newWorld(&free, true)
+	w.MQ.mu.Lock()
+	w.MQ.onReq = append(w.MQ.onReq, func(r *Req) {
+		w.S.Busy(1)
+		go func() {
+			defer w.S.Busy(-1)
+			var o Outcome
+			if r.TooLong {
+				o = Outcome{Name: "subjectTooLong", Err: mq.ErrSubjectTooLong}
+			} else if answer != nil {
+				o = answer(w, r)
+			} else {
+				o = w.OK(r)
+			}
+			if o.Name == "hold" {
+				return
+			}
+			var d []byte
+			if o.Data != nil {
+				d = o.Data()
+			}
+			w.MQ.Answer(r, o.Name, d, o.Err)
+		}()
+	})
+	w.MQ.mu.Unlock()
+	return w
+}
+
+// Settle waits until the gateway is idle.
+func (w *World) Settle() bool {
+	if !w.S.Settle() {
+		w.Hung = true
+		return false
+	}
+	w.pollHTTP()
+	w.flushFrames()
+	return true
+}
+
+// WaitNoConns waits (free-running tier) until the connection table is empty
+// and the gateway is idle: teardown of socket connections is asynchronous.
+func (w *World) WaitNoConns(timeout time.Duration) bool {
+	dl := time.Now().Add(timeout)
+	for {
+		if !w.Settle() {
+			return false
+		}
+		if len(w.Serv.VerifSnapshot()) == 0 && w.S.settledNow() {
+			return true
+		}
+		if time.Now().After(dl) {
+			return false
+		}
+		time.Sleep(200 * time.Microsecond)
+	}
 }
 
 // label returns the canonical label of a cid, allocating one for temporary
